@@ -163,7 +163,8 @@ def lean_check(prop, tier):
                     st.bad.append(name + " uses " + ",".join(axs))
         if st.build_ok and tier == "thorough":
             out = subprocess.run(
-                ["lake", "env", "leanchecker", "AsyncVerif.Properties.%s" % prop],
+                # every Properties module that states a theorem of this property (its own files and guests)
+                ["lake", "env", "leanchecker"] + ["AsyncVerif.Properties.%s" % f.stem for f in property_files(prop)],
                 cwd=LEAN, capture_output=True, text=True,
             )
             st.leanchecker = out.returncode == 0
